@@ -386,6 +386,12 @@ func (c *fctx) call(x *ast.CallExpr, want string) (string, string) {
 		a, _ := arg(0, "list Z")
 		b, _ := arg(1, "Z")
 		return "bytes_index_byte " + a + " " + b, "Z"
+	case (name == "max" || name == "min") && len(x.Args) == 2:
+		a, ta := arg(0, "Z")
+		b, tb := arg(1, "Z")
+		if ta == "Z" && tb == "Z" {
+			return "Z." + name + " " + a + " " + b, "Z"
+		}
 	case name == "len" && len(x.Args) == 1:
 		v, ty := arg(0, "")
 		if ty == "string" {
